@@ -7,9 +7,22 @@
    double-ended byte list with a capacity (C13/QueueSpec.v, 60 lines); [abs]
    forgets offsets and wrap-around.  [qinv] is: the storage has [max] bytes,
    len <= max, off <= max.  It holds for every state the library can produce from
-   an initialised queue and is preserved by every operation (part of the theorem). *)
+   an initialised queue and is preserved by every operation (part of the theorem).
+
+   [qop] holds the C operations (mptcore/queue/*.c) AND the methods of the mpt++ class
+   io::queue (mpt++/io_queue.cpp: prepare, push, unshift, pop, shift, write, read, peek,
+   destructor + constructor), which are compositions of the C operations; histories mix
+   both freely.  The last argument of [sstep] is the number of bytes the implementation
+   returned; only the io::queue::peek case of the specification looks at it (a peek may
+   show more than asked, depending on where the content wraps: the specification demands
+   a long enough prefix of the content).
+   [equeue]/[estep] (C13/EncQueueModel.v) is the mpt++ class encode_queue without an
+   encoder function (mpt++/queue.cpp: push = raw append of what fits, trim); its
+   specification [esq]/[esstep] (C13/EncQueueSpec.v, 30 lines) is a deque split into a
+   finished and an unfinished part. *)
 From MptV Require Import Base.Mem C13.QueueModel C13.QueueSpec C13.QueueProofs
-  C13.QueueAlign C13.QueueFind C13.QueueRefine.
+  C13.QueueAlign C13.QueueFind C13.IoQueueProofs C13.QueueRefine
+  C13.EncQueueModel C13.EncQueueSpec C13.EncQueueRefine.
 
 (* One operation, any capacity, any start offset, any fill, wrapped or not:
    the model does not fault (no access outside the storage), keeps the invariant,
@@ -18,7 +31,7 @@ Theorem C13_step_refines_deque :
   forall q o, qinv q ->
     let '(q', out) := qstep q o in
     out <> OFault /\ qinv q' /\
-    sstep (abs q) o (accepted out) (err_of out) = (abs q', out).
+    sstep (abs q) o (accepted out) (err_of out) (len_of out) = (abs q', out).
 Proof. exact qstep_refines. Qed.
 
 (* Any history of operations: the sequence of outputs, held bytes and capacities
@@ -42,6 +55,36 @@ Theorem C13_memrev_rotates :
     memrev m data pre len = Ok (rotf m data pre (len - pre)).
 Proof. exact memrev_spec. Qed.
 
+(* io::queue::write (as patched by docs/C13_io_write.diff) stores every element it is given,
+   in order, behind the old content, and reports all of them, whatever the capacity was. *)
+Theorem C13_io_write_complete :
+  forall q part elems f, qinv q -> 0 < part ->
+    Forall (fun e => length e = part) elems ->
+    exists q', qstep q (OpIoWrite part elems f) = (q', OCount (length elems) []) /\
+      contents q' = contents q ++ concat elems.
+Proof. exact iowrite_complete. Qed.
+
+(* Raw encode_queue (mpt++/queue.cpp): one operation, any ring state whose counters
+   cover the content (done + scratch = len): no fault, the invariant is kept, and output,
+   bytes, capacity, finished/unfinished split are those of the two-part deque. *)
+Theorem C13_enc_step_refines :
+  forall e o, einv e ->
+    let '(e', out) := estep e o in
+    out <> OFault /\ einv e' /\ esstep (eabs e) o (err_of out) = (eabs e', out).
+Proof. exact estep_refines. Qed.
+
+Theorem C13_enc_history_refines :
+  forall ops e, einv e ->
+    erun e ops = esrun e (eabs e) ops /\
+    Forall (fun r => fst (fst (fst (fst r))) <> OFault) (erun e ops).
+Proof. exact erun_refines. Qed.
+
+(* Finished bytes stay what they are, at the front, until they are trimmed. *)
+Theorem C13_enc_finished_stable :
+  forall e o, einv e -> (forall n, o <> ETrim n) ->
+    exists rest, sfin (eabs (fst (estep e o))) = sfin (eabs e) ++ rest.
+Proof. exact finished_stable. Qed.
+
 (* ---- non-vacuity: a wrapped, partly filled queue meets the hypotheses and the
    statements say something about it ---- *)
 Example C13_inv_wrapped : qinv (mkq [3;4;238;238;238;238;1;2]%N 4 8 6).
@@ -61,7 +104,36 @@ Example C13_refusal_example :
   accepted (snd (qstep (mkq [3;4;238;238;238;238;1;2]%N 4 8 6) (OpPush [1;2;3;4;5]%N))) = false.
 Proof. vm_compute. reflexivity. Qed.
 
+(* the mpt++ methods on the same wrapped queue: push beyond the capacity grows it, a peek
+   for more than the first segment makes the content contiguous, read takes from the end *)
+Example C13_io_history_example :
+  map (fun r => (fst (fst r), snd (fst r), snd r))
+      (qrun (mkq [3;4;238;238;238;238;1;2]%N 4 8 6)
+            [OpIoPush [5;6;7;8;9]%N 238%N; OpIoPeek 3%nat; OpIoRead 2%nat 2%nat; OpIoPop 1%nat false;
+             OpIoWrite 2%nat [[10;11];[12;13]]%N 238%N; OpIoShift 9%nat true])
+  = [(ODone, [1;2;3;4;5;6;7;8;9], 16%nat); (OBytes [1;2;3;4;5;6;7;8;9], [1;2;3;4;5;6;7;8;9], 16%nat);
+     (OCount 2%nat [8;9;6;7], [1;2;3;4;5], 16%nat); (ODone, [1;2;3;4], 16%nat);
+     (OCount 2%nat [], [1;2;3;4;10;11;12;13], 16%nat);
+     (ORefused ERange, [1;2;3;4;10;11;12;13], 16%nat)]%N.
+Proof. vm_compute. reflexivity. Qed.
+
+Example C13_enc_inv_wrapped : einv (mkeq (mkq [3;4;238;238;238;238;1;2]%N 4 8 6) 3 1).
+Proof. unfold einv, qinv; cbn; lia. Qed.
+
+Example C13_enc_history_example :
+  map (fun r => (snd (fst (fst (fst r))), snd (fst r), snd r))
+      (erun (mkeq (mkq [3;4;238;238;238;238;1;2]%N 4 8 6) 3 1)
+            [EPush [5;6]%N; ERevert; EPush [7;8;9;10;11;12]%N; EPush []; ETrim 2%nat; ETrim 7%nat])
+  = [([1;2;3;4;5;6], 3%nat, 3%nat); ([1;2;3], 3%nat, 0%nat); ([1;2;3;7;8;9;10;11], 3%nat, 5%nat);
+     ([1;2;3;7;8;9;10;11], 8%nat, 0%nat); ([3;7;8;9;10;11], 6%nat, 0%nat);
+     ([3;7;8;9;10;11], 6%nat, 0%nat)]%N.
+Proof. vm_compute. reflexivity. Qed.
+
 Print Assumptions C13_step_refines_deque.
 Print Assumptions C13_history_refines_deque.
 Print Assumptions C13_refused_leaves_content.
 Print Assumptions C13_memrev_rotates.
+Print Assumptions C13_io_write_complete.
+Print Assumptions C13_enc_step_refines.
+Print Assumptions C13_enc_history_refines.
+Print Assumptions C13_enc_finished_stable.
